@@ -191,6 +191,10 @@ def _build_and_audit(ctx, engine):
         last = n.split(".")[-1]
         if last.startswith("tr_") and any(last[3:] == nm or last[3:].startswith(nm + "_") for nm in tr_names):
             theorems[n] = a
+    # theorems about translated code that live in a namespace of their own (not the one of a property)
+    for g in tr_groups:
+        if g in GROUP_NAMESPACES and not tr_broken:
+            theorems.update(common.theorems_of(thms_all, GROUP_NAMESPACES[g]))
     bad_ax = {n: a for n, a in theorems.items() if not set(a) <= common.ALLOWED_AXIOMS}
     if bad_ax:
         raise MachineryError(f"theorems with unexpected axioms: {bad_ax}")
@@ -207,6 +211,9 @@ def _build_and_audit(ctx, engine):
             raise MachineryError("leanchecker rejected the compiled modules:\n" + log)
         checker_cmd += " && lake env leanchecker " + " ".join(mods)
     return broken, theorems, gen_ob, checker_cmd, tr_specs
+
+
+GROUP_NAMESPACES = {"Missing": "C19M", "Links": "C19L", "Notify": "Notify", "Rules": "Rules"}
 
 
 def _run_engine(ctx, engine, broken, theorems, gen_ob, checker_cmd, tr_specs):
